@@ -444,6 +444,9 @@ def _check_luby_rackoff(repo, r6, lrc):
         shown = S.show(Fk)[:100]
         if by_chunks and Fk == ("var", ivar):
             ok_key = True   # one chunk of key_length // 3 bytes per round, in order (chunks: R17.4)
+        elif Fk[0] == "sub" and Fk[2] == ("var", ivar) and Fk[1] in chunked and Fk[1][1] == ("fn", "list") and tm is not None and tm[0] == "count" and tm[1] == ("const", 3) \
+                and sm.iter is not None and S.show(sm.iter) in ("range(3)", "range(0, 3)"):
+            ok_key = True   # list(chunks(key, key_length // 3))[i] for i = 0, 1, 2
         elif Fk[0] == "sub" and Fk[2] == ("var", ivar):
             ft = fn_terms(repo, lrc)
             for n in ft.cfg.nodes:
